@@ -353,6 +353,11 @@ def check_hugr_case(ctx, case, stratum="hugr"):
         h.add_node(ops.Custom("BinOp", tys.FunctionType([box], [f64]), "", "verif.test",
                               [tys.TypeTypeArg(box), tys.SequenceArg([tys.TypeTypeArg(arr), tys.StringArg("s")])]),
                    h.root)
+        # ... also where nothing in the SIGNATURE is there to resolve (phantom arguments)
+        h.add_node(ops.Custom("BinOp", tys.FunctionType([tys.Bool], [tys.Bool]), "", "verif.test",
+                              [tys.TypeTypeArg(i5), tys.TypeTypeArg(arr)]), h.root)
+        h.add_node(ops.Custom("Not", tys.FunctionType([tys.Bool, tys.Bool], [tys.Bool]), "", "logic",
+                              [tys.TypeTypeArg(f64)]), h.root)
     if case.get("plant_lookalike"):
         # opaque operations / types whose NAME only resembles a defined one (qualified with the extension's name,
         # other case, padded): the registry holds no definition "of that name", they stay as they are
